@@ -1,10 +1,16 @@
 //! C01 — `Graph` histories: every public operation with valid and invalid index arguments, both
 //! edge types (switching with `into_edge_type`), all index widths, `u8` capacity histories.
 //! After every mutating call a full observation block (`d_*` lines) through the public API.
+//! Wave 6: the corners — `law …` lines (c01laws.rs: laws checked against the implementation itself),
+//! `clone_from` onto arbitrary prior graphs, every `IntoWeightedEdge` item form of `extend_with_edges` /
+//! `from_edges`, `into_nodes_edges`, weight access through `Frozen`, capacity laws.
+#[path = "c01laws.rs"]
+mod laws;
 use crate::common::*;
+use crate::iterlaws::law_verdict;
 use crate::rng::Rng;
 use petgraph::data::{Build, Create, DataMap, DataMapMut, Element, FromElements};
-use petgraph::graph::{EdgeIndex, Graph, IndexType, NodeIndex, WalkNeighbors};
+use petgraph::graph::{EdgeIndex, Frozen, Graph, IndexType, NodeIndex, WalkNeighbors};
 use petgraph::stable_graph::StableGraph;
 use petgraph::visit::{EdgeRef, IntoNodeReferences};
 use petgraph::Direction::{Incoming, Outgoing};
@@ -47,9 +53,68 @@ fn ox(o: Option<usize>) -> String {
     }
 }
 
+/// set when a list of the graph was found not to terminate: the rest of the case is skipped (every iterator and
+/// `find_edge` would hang or exhaust the memory)
+static ABORT_CASE: std::sync::atomic::AtomicBool = std::sync::atomic::AtomicBool::new(false);
+fn aborted() -> bool {
+    ABORT_CASE.load(std::sync::atomic::Ordering::Relaxed)
+}
+
+/// the raw arrays are a sound linked structure: from each node head the out-chain and the in-chain reach `end()`
+/// (or leave the edge array) within `m` steps, every edge met on the out-chain (in-chain) of node `a` has `a` as
+/// its source (target), and the chains together hold each edge exactly once per direction.  Walked through the
+/// raw accessors, so the check cannot hang itself; it is the invariant `Inv` of the model (C01_inv_all_histories),
+/// so it never fails on a correct implementation.  Without it the next call (or a dump iterator) on a corrupted
+/// graph could loop for ever.
+fn lists_finite<Ty: EdgeType, Ix: IndexType>(g: &Graph<W, W, Ty, Ix>) -> Option<String> {
+    let m = g.edge_count();
+    let n = g.node_count();
+    for dir in [Outgoing, Incoming] {
+        let mut seen = vec![false; m];
+        let mut total = 0usize;
+        for (a, nd) in g.raw_nodes().iter().enumerate() {
+            let mut cur = nd.next_edge(dir).index();
+            let mut steps = 0usize;
+            while let Some(ed) = g.raw_edges().get(cur) {
+                steps += 1;
+                if steps > m {
+                    return Some(format!("the {:?} list of node {} does not end within {} steps", dir, a, m));
+                }
+                let end = if dir == Outgoing { ed.source().index() } else { ed.target().index() };
+                if end != a {
+                    return Some(format!("the {:?} list of node {} holds edge {} whose endpoint on that side is {}", dir, a, cur, end));
+                }
+                if seen[cur] {
+                    return Some(format!("edge {} is met twice on the {:?} lists", cur, dir));
+                }
+                seen[cur] = true;
+                total += 1;
+                cur = ed.next_edge(dir).index();
+            }
+        }
+        if total != m {
+            return Some(format!("the {:?} lists hold {} of the {} edges", dir, total, m));
+        }
+    }
+    for (e, ed) in g.raw_edges().iter().enumerate() {
+        if ed.source().index() >= n || ed.target().index() >= n {
+            return Some(format!("edge {} joins {} and {} but there are {} nodes", e, ed.source().index(), ed.target().index(), n));
+        }
+    }
+    None
+}
+
 /// full observation of the graph through the public API; equivalent views are cross-checked here
 /// and a disagreement is printed in place of the answer
 fn dump<Ty: EdgeType, Ix: IndexType>(ctx: &mut Ctx, g: &Graph<W, W, Ty, Ix>, rng: &mut Rng) {
+    if aborted() {
+        return;
+    }
+    if let Some(why) = lists_finite(g) {
+        ctx.line("law finite", &format!("VIOLATED {}", why));
+        ABORT_CASE.store(true, std::sync::atomic::Ordering::Relaxed);
+        return;
+    }
     let n = g.node_count();
     let m = g.edge_count();
     ctx.line("d_counts", &format!("{} {} {}", n, m, g.is_directed()));
@@ -276,6 +341,40 @@ fn dump<Ty: EdgeType, Ix: IndexType>(ctx: &mut Ctx, g: &Graph<W, W, Ty, Ix>, rng
     ctx.line(&format!("d_pairs {}", ps), &or_panic(r));
 }
 
+/// the `law …` lines on the current graph: each law is checked in the harness against the implementation
+/// itself (a panic inside a law is a violation too); the driver expects `ok`
+fn laws_block<Ty: EdgeType + std::fmt::Debug + Clone, Ix: IndexType>(ctx: &mut Ctx, g: &mut Graph<W, W, Ty, Ix>, rng: &mut Rng) {
+    if aborted() || lists_finite(g).is_some() {
+        return;
+    }
+    let prior = laws::prior_graph::<Ty, Ix>(rng);
+    let before = laws::sig(g);
+    let wrap = |r: Option<Option<String>>| match r {
+        Some(v) => law_verdict(v),
+        None => "VIOLATED a call inside the law panicked".to_string(),
+    };
+    let r = catch(|| laws::iter_block(g, rng));
+    ctx.line("law iter", &wrap(r));
+    let r = catch(|| laws::mut_iter_block(g));
+    ctx.line("law mut_iter", &wrap(r));
+    let r = catch(|| laws::views_block(g, &prior));
+    ctx.line("law views", &wrap(r));
+    let r = catch(|| laws::fmt_block(g));
+    ctx.line("law fmt", &wrap(r));
+    let r = catch(|| laws::clone_block(g, &prior));
+    ctx.line("law clone", &wrap(r));
+    let after = laws::sig(g);
+    let same = if after == before { None } else { Some(format!("the law checks changed the graph: [{}] -> [{}]", before, after)) };
+    ctx.line("law unchanged", &law_verdict(same));
+}
+
+fn laws_any<Ix: IndexType>(ctx: &mut Ctx, any: &mut AnyG<Ix>, rng: &mut Rng) {
+    match any {
+        AnyG::D(g) => laws_block(ctx, g, rng),
+        AnyG::U(g) => laws_block(ctx, g, rng),
+    }
+}
+
 fn dump_any<Ix: IndexType>(ctx: &mut Ctx, any: &AnyG<Ix>, rng: &mut Rng) {
     match any {
         AnyG::D(g) => dump(ctx, g, rng),
@@ -424,11 +523,64 @@ fn res_ix(r: Result<usize, petgraph::graph::GraphError>) -> String {
     }
 }
 
+/// `extend_with_edges` with every item form `IntoWeightedEdge` is implemented for (lib.rs): owned / borrowed
+/// triples, `(a, b, &w)`, owned / borrowed pairs (weight = `E::default()`), node ids as `NodeIndex` or raw `Ix`
+fn extend_form<Ty: EdgeType, Ix: IndexType>(g: &mut Graph<W, W, Ty, Ix>, l: &[(usize, usize, W)], form: usize) {
+    let t3: Vec<(NodeIndex<Ix>, NodeIndex<Ix>, W)> = l.iter().map(|t| (ni(t.0), ni(t.1), t.2)).collect();
+    match form {
+        0 => g.extend_with_edges(t3),
+        1 => g.extend_with_edges(&t3),
+        2 => g.extend_with_edges(l.iter().map(|t| (<Ix as IndexType>::new(t.0), <Ix as IndexType>::new(t.1), t.2))),
+        3 => g.extend_with_edges(t3.iter().map(|t| (t.0, t.1, &t.2))),
+        4 => g.extend_with_edges(l.iter().map(|t| (ni::<Ix>(t.0), ni::<Ix>(t.1)))),
+        _ => {
+            let t2: Vec<(Ix, Ix)> = l.iter().map(|t| (<Ix as IndexType>::new(t.0), <Ix as IndexType>::new(t.1))).collect();
+            g.extend_with_edges(&t2)
+        }
+    }
+}
+
+fn from_form<Ty: EdgeType, Ix: IndexType>(l: &[(usize, usize, W)], form: usize) -> Graph<W, W, Ty, Ix> {
+    let t3: Vec<(NodeIndex<Ix>, NodeIndex<Ix>, W)> = l.iter().map(|t| (ni(t.0), ni(t.1), t.2)).collect();
+    match form {
+        0 => Graph::from_edges(t3),
+        1 => Graph::from_edges(&t3),
+        2 => Graph::from_edges(l.iter().map(|t| (<Ix as IndexType>::new(t.0), <Ix as IndexType>::new(t.1), t.2))),
+        3 => Graph::from_edges(t3.iter().map(|t| (t.0, t.1, &t.2))),
+        4 => Graph::from_edges(l.iter().map(|t| (ni::<Ix>(t.0), ni::<Ix>(t.1)))),
+        _ => {
+            let t2: Vec<(Ix, Ix)> = l.iter().map(|t| (<Ix as IndexType>::new(t.0), <Ix as IndexType>::new(t.1))).collect();
+            Graph::from_edges(&t2)
+        }
+    }
+}
+
+/// a few structural and weight changes (for "clone, then mutate both")
+fn scramble<Ty: EdgeType, Ix: IndexType>(g: &mut Graph<W, W, Ty, Ix>) {
+    g.reverse();
+    for w in g.edge_weights_mut() {
+        *w += 3;
+    }
+    if g.node_count() > 0 {
+        g.remove_node(ni(0));
+    }
+    if g.edge_count() > 0 {
+        g.remove_edge(ei(0));
+    }
+    if g.node_count() > 0 {
+        let a = ni::<Ix>(g.node_count() - 1);
+        let _ = g.try_add_edge(a, a, 5);
+    }
+    let _ = g.try_add_node(8);
+}
+
 /// one operation on a graph of fixed edge type; returns true if a dump must follow
 fn apply<Ty: EdgeType, Ix: IndexType>(ctx: &mut Ctx, gen: &mut Gen, g: &mut Graph<W, W, Ty, Ix>, kind: K) -> bool {
     let n = g.node_count();
     let m = g.edge_count();
     let via_trait = gen.rng.chance(25);
+    // weight access through `Frozen` (Index/IndexMut, DataMapMut, index_twice_mut of frozen.rs)
+    let via_frozen = gen.rng.chance(20);
     match kind {
         K::AddNode => {
             let w = gen.w();
@@ -488,23 +640,38 @@ fn apply<Ty: EdgeType, Ix: IndexType>(ctx: &mut Ctx, gen: &mut Gen, g: &mut Grap
         K::NodeWeightMut => {
             let (a, w) = (gen.arg(n), gen.w());
             let r = catch(|| {
-                let slot = if via_trait { DataMapMut::node_weight_mut(g, ni(a)) } else { g.node_weight_mut(ni(a)) };
-                opt(slot.map(|x| std::mem::replace(x, w)))
+                if via_frozen {
+                    let mut fz = Frozen::new(&mut *g);
+                    opt(DataMapMut::node_weight_mut(&mut fz, ni(a)).map(|x| std::mem::replace(x, w)))
+                } else {
+                    let slot = if via_trait { DataMapMut::node_weight_mut(g, ni(a)) } else { g.node_weight_mut(ni(a)) };
+                    opt(slot.map(|x| std::mem::replace(x, w)))
+                }
             });
             ctx.line(&format!("node_weight_mut {} {}", a, w), &or_panic(r));
         }
         K::EdgeWeightMut => {
             let (e, w) = (gen.arg(m), gen.w());
             let r = catch(|| {
-                let slot = if via_trait { DataMapMut::edge_weight_mut(g, ei(e)) } else { g.edge_weight_mut(ei(e)) };
-                opt(slot.map(|x| std::mem::replace(x, w)))
+                if via_frozen {
+                    let mut fz = Frozen::new(&mut *g);
+                    opt(DataMapMut::edge_weight_mut(&mut fz, ei(e)).map(|x| std::mem::replace(x, w)))
+                } else {
+                    let slot = if via_trait { DataMapMut::edge_weight_mut(g, ei(e)) } else { g.edge_weight_mut(ei(e)) };
+                    opt(slot.map(|x| std::mem::replace(x, w)))
+                }
             });
             ctx.line(&format!("edge_weight_mut {} {}", e, w), &or_panic(r));
         }
         K::IndexMutNode => {
             let (a, w) = (gen.arg(n), gen.w());
             let r = catch(|| {
-                g[ni::<Ix>(a)] = w;
+                if via_frozen {
+                    let mut fz = Frozen::new(&mut *g);
+                    fz[ni::<Ix>(a)] = w;
+                } else {
+                    g[ni::<Ix>(a)] = w;
+                }
                 "ok".to_string()
             });
             ctx.line(&format!("index_mut_node {} {}", a, w), &or_panic(r));
@@ -512,7 +679,12 @@ fn apply<Ty: EdgeType, Ix: IndexType>(ctx: &mut Ctx, gen: &mut Gen, g: &mut Grap
         K::IndexMutEdge => {
             let (e, w) = (gen.arg(m), gen.w());
             let r = catch(|| {
-                g[ei::<Ix>(e)] = w;
+                if via_frozen {
+                    let mut fz = Frozen::new(&mut *g);
+                    fz[ei::<Ix>(e)] = w;
+                } else {
+                    g[ei::<Ix>(e)] = w;
+                }
                 "ok".to_string()
             });
             ctx.line(&format!("index_mut_edge {} {}", e, w), &or_panic(r));
@@ -525,6 +697,32 @@ fn apply<Ty: EdgeType, Ix: IndexType>(ctx: &mut Ctx, gen: &mut Gen, g: &mut Grap
             let j = if ki == kj && gen.rng.chance(8) { i } else { gen.arg(if kj { m } else { n }) };
             let (wi, wj) = (gen.w(), gen.w());
             let r = catch(|| {
+                if via_frozen {
+                    let mut fz = Frozen::new(&mut *g);
+                    match kinds {
+                        "nn" => {
+                            let (x, y) = fz.index_twice_mut(ni::<Ix>(i), ni::<Ix>(j));
+                            *x = wi;
+                            *y = wj;
+                        }
+                        "ne" => {
+                            let (x, y) = fz.index_twice_mut(ni::<Ix>(i), ei::<Ix>(j));
+                            *x = wi;
+                            *y = wj;
+                        }
+                        "en" => {
+                            let (x, y) = fz.index_twice_mut(ei::<Ix>(i), ni::<Ix>(j));
+                            *x = wi;
+                            *y = wj;
+                        }
+                        _ => {
+                            let (x, y) = fz.index_twice_mut(ei::<Ix>(i), ei::<Ix>(j));
+                            *x = wi;
+                            *y = wj;
+                        }
+                    }
+                    return "ok".to_string();
+                }
                 match kinds {
                     "nn" => {
                         let (x, y) = g.index_twice_mut(ni::<Ix>(i), ni::<Ix>(j));
@@ -628,12 +826,22 @@ fn apply<Ty: EdgeType, Ix: IndexType>(ctx: &mut Ctx, gen: &mut Gen, g: &mut Grap
             if gen.kmax == 255 && gen.rng.chance(3) {
                 l.push((255, 0, 1)); // NodeIndex::end() as an endpoint: add_node's capacity panic
             }
-            let items: Vec<(NodeIndex<Ix>, NodeIndex<Ix>, W)> = l.iter().map(|t| (ni(t.0), ni(t.1), t.2)).collect();
+            // the same node twice / the same pair twice in one call
+            if !l.is_empty() && gen.rng.chance(15) {
+                let t = l[gen.rng.below(l.len())];
+                l.push(if gen.rng.chance(50) { t } else { (t.1, t.0, t.2) });
+            }
+            let form = gen.rng.below(6);
+            if form >= 4 {
+                for t in l.iter_mut() {
+                    t.2 = 0; // the pair forms take `E::default()`
+                }
+            }
             let r = catch(|| {
-                g.extend_with_edges(items);
+                extend_form(g, &l, form);
                 "ok".to_string()
             });
-            ctx.line(&format!("extend_with_edges {}", triples(&l)), &or_panic(r));
+            ctx.line(&format!("extend_with_edges {} f{}", triples(&l), form), &or_panic(r));
         }
         K::Map => {
             let (dn, de) = (gen.rng.below(3) as W, gen.rng.below(3) as W);
@@ -659,29 +867,64 @@ fn apply<Ty: EdgeType, Ix: IndexType>(ctx: &mut Ctx, gen: &mut Gen, g: &mut Grap
             ctx.line(&format!("filter_map {} {} {} {}", ns, es, dn, de), &or_panic(r));
         }
         K::CloneG => {
-            let which = gen.rng.below(2);
+            // 0: clone; 1: clone_from onto an arbitrary prior graph (smaller / larger, with edges of its own);
+            // 2: clone, mutate the ORIGINAL, keep the clone; 3: clone, mutate the CLONE, keep the original;
+            // 4: clone_from onto a mutated clone of itself
+            let which = gen.rng.below(5);
+            let prior = laws::prior_graph::<Ty, Ix>(&mut *gen.rng);
             let r = catch(|| {
-                if which == 0 {
-                    let h = g.clone();
-                    *g = h;
-                } else {
-                    let mut h: Graph<W, W, Ty, Ix> = Graph::default();
-                    h.add_node(7);
-                    h.clone_from(g);
-                    *g = h;
+                match which {
+                    0 => {
+                        let h = g.clone();
+                        *g = h;
+                    }
+                    1 => {
+                        let mut h = prior;
+                        h.clone_from(g);
+                        *g = h;
+                    }
+                    2 => {
+                        let h = g.clone();
+                        scramble(g);
+                        *g = h;
+                    }
+                    3 => {
+                        let mut h = g.clone();
+                        scramble(&mut h);
+                    }
+                    _ => {
+                        let mut h = g.clone();
+                        scramble(&mut h);
+                        h.clone_from(g);
+                        *g = h;
+                    }
                 }
                 "ok".to_string()
             });
             ctx.line(&format!("clone {}", which), &or_panic(r));
         }
         K::Rebuild => {
+            // 0: through StableGraph; 1: into_nodes_edges and re-insertion in index order
+            let which = gen.rng.below(2);
             let r = catch(|| {
                 let taken = std::mem::take(g);
-                let st: StableGraph<W, W, Ty, Ix> = StableGraph::from(taken);
-                *g = Graph::from(st);
+                if which == 0 {
+                    let st: StableGraph<W, W, Ty, Ix> = StableGraph::from(taken);
+                    *g = Graph::from(st);
+                } else {
+                    let (nodes, edges) = taken.into_nodes_edges();
+                    let mut h: Graph<W, W, Ty, Ix> = Graph::with_capacity(nodes.len(), edges.len());
+                    for nd in nodes {
+                        h.add_node(nd.weight);
+                    }
+                    for ed in edges {
+                        h.add_edge(ed.source(), ed.target(), ed.weight);
+                    }
+                    *g = h;
+                }
                 "ok".to_string()
             });
-            ctx.line("rebuild", &or_panic(r));
+            ctx.line(&format!("rebuild {}", which), &or_panic(r));
         }
         K::Cap => {
             let which = gen.rng.below(8);
@@ -695,9 +938,17 @@ fn apply<Ty: EdgeType, Ix: IndexType>(ctx: &mut Ctx, gen: &mut Gen, g: &mut Grap
                     4 => g.shrink_to_fit_nodes(),
                     5 => g.shrink_to_fit_edges(),
                     6 => g.shrink_to_fit(),
-                    _ => {
-                        let _ = g.capacity();
-                    }
+                    _ => {}
+                }
+                // law: the capacity covers what is stored (and what was reserved)
+                let (cn, ce) = g.capacity();
+                let (wn, we) = match which {
+                    0 | 2 => (n + amt, m),
+                    1 | 3 => (n, m + amt),
+                    _ => (n, m),
+                };
+                if cn < wn || ce < we {
+                    return format!("VIOLATED capacity() = ({}, {}) with {} nodes, {} edges after cap {} {}", cn, ce, n, m, which, amt);
                 }
                 "ok".to_string()
             });
@@ -736,14 +987,20 @@ fn apply<Ty: EdgeType, Ix: IndexType>(ctx: &mut Ctx, gen: &mut Gen, g: &mut Grap
         K::FromEdges => {
             let cnt = gen.rng.below(7);
             let l = gen.edge_list(0, cnt, 5);
-            let items: Vec<(NodeIndex<Ix>, NodeIndex<Ix>, W)> = l.iter().map(|t| (ni(t.0), ni(t.1), t.2)).collect();
-            let r = catch(|| Graph::<W, W, Ty, Ix>::from_edges(items));
+            let mut l = l;
+            let form = gen.rng.below(6);
+            if form >= 4 {
+                for t in l.iter_mut() {
+                    t.2 = 0;
+                }
+            }
+            let r = catch(|| from_form::<Ty, Ix>(&l, form));
             match r {
                 Some(h) => {
                     *g = h;
-                    ctx.line(&format!("from_edges {}", triples(&l)), "ok");
+                    ctx.line(&format!("from_edges {} f{}", triples(&l), form), "ok");
                 }
-                None => ctx.line(&format!("from_edges {}", triples(&l)), "panic"),
+                None => ctx.line(&format!("from_edges {} f{}", triples(&l), form), "panic"),
             }
         }
         K::FromElements => {
@@ -1013,8 +1270,34 @@ fn run_case<Ix: IndexType>(ctx: &mut Ctx, rng: &mut Rng, case: u64, w: u32, init
         AnyG::U(_) => "undir",
     };
     ctx.raw(&format!("case {} w={} {}", case, w, dirname));
+    ABORT_CASE.store(false, std::sync::atomic::Ordering::Relaxed);
     let kmax: usize = <Ix as IndexType>::max().index();
     let mut any = init;
+    // once per case: laws that do not depend on the history
+    let wrap = |r: Option<Option<String>>| match r {
+        Some(v) => law_verdict(v),
+        None => "VIOLATED a call inside the law panicked".to_string(),
+    };
+    ctx.line("law index", &wrap(catch(|| laws::index_block::<Ix>())));
+    let r = match &any {
+        AnyG::D(_) => catch(|| laws::default_block::<Directed, Ix>()),
+        AnyG::U(_) => catch(|| laws::default_block::<Undirected, Ix>()),
+    };
+    ctx.line("law default", &wrap(r));
+    if rng.chance(25) {
+        let r = match &any {
+            AnyG::D(_) => catch(|| laws::elements_block::<Directed, Ix>(rng)),
+            AnyG::U(_) => catch(|| laws::elements_block::<Undirected, Ix>(rng)),
+        };
+        ctx.line("law elements", &wrap(r));
+    }
+    if rng.chance(if ctx.tier_thorough { 3 } else { 5 }) {
+        let r = match &any {
+            AnyG::D(_) => catch(|| laws::capacity_u16_block::<Directed>(rng)),
+            AnyG::U(_) => catch(|| laws::capacity_u16_block::<Undirected>(rng)),
+        };
+        ctx.line("law capacity_u16", &wrap(r));
+    }
     // detached walkers kept alive across the history (55 % of the cases interleave walker calls)
     let mut walkers: Vec<WalkNeighbors<Ix>> = Vec::new();
     let walker_pct: u32 = if rng.chance(55) { *rng.pick(&[8u32, 15, 25]) } else { 0 };
@@ -1079,6 +1362,9 @@ fn run_case<Ix: IndexType>(ctx: &mut Ctx, rng: &mut Rng, case: u64, w: u32, init
     for (phase, count) in phase_plan {
         let ws = weights(phase);
         for _ in 0..count {
+            if aborted() {
+                return;
+            }
             if walker_pct > 0 && rng.chance(walker_pct) {
                 let bad = rng.chance(14);
                 let mut gen = Gen { rng: &mut *rng, kmax, bad };
@@ -1122,10 +1408,19 @@ fn run_case<Ix: IndexType>(ctx: &mut Ctx, rng: &mut Rng, case: u64, w: u32, init
             };
             if need_dump {
                 dump_any(ctx, &any, rng);
+                if rng.chance(8) {
+                    laws_any(ctx, &mut any, rng);
+                    dump_any(ctx, &any, rng);
+                }
             }
         }
     }
     dump_any(ctx, &any, rng);
+    laws_any(ctx, &mut any, rng);
+    dump_any(ctx, &any, rng);
+    if aborted() {
+        return;
+    }
     walker_drain(ctx, &any, &mut walkers);
 }
 
